@@ -35,7 +35,37 @@ Definition ls_listed : listing := [
   ("datasource/sql/exec.commonHook", "BuildExecutor", "CleanCommonHook");
   ("datasource/sql/exec.commonHook", "RegisterCommonHook", "RegisterCommonHook");
   ("datasource/sql/exec.commonHook", "RegisterCommonHook", "CleanCommonHook");
-  ("datasource/sql/exec.commonHook", "CleanCommonHook", "CleanCommonHook")
+  ("datasource/sql/exec.commonHook", "CleanCommonHook", "CleanCommonHook");
+  (* id race.log: the logger is replaced by SetLogger / InitWithOption (configuration API, meant to
+     be called before the client is used) without synchronisation while every log call reads it *)
+  ("util/log.log", "Debug", "InitWithOption");
+  ("util/log.log", "Debug", "SetLogger");
+  ("util/log.log", "Debugf", "InitWithOption");
+  ("util/log.log", "Debugf", "SetLogger");
+  ("util/log.log", "Error", "InitWithOption");
+  ("util/log.log", "Error", "SetLogger");
+  ("util/log.log", "Errorf", "InitWithOption");
+  ("util/log.log", "Errorf", "SetLogger");
+  ("util/log.log", "Fatal", "InitWithOption");
+  ("util/log.log", "Fatal", "SetLogger");
+  ("util/log.log", "GetLogger", "InitWithOption");
+  ("util/log.log", "GetLogger", "SetLogger");
+  ("util/log.log", "Info", "InitWithOption");
+  ("util/log.log", "Info", "SetLogger");
+  ("util/log.log", "Infof", "InitWithOption");
+  ("util/log.log", "Infof", "SetLogger");
+  ("util/log.log", "InitWithOption", "InitWithOption");
+  ("util/log.log", "InitWithOption", "Panic");
+  ("util/log.log", "InitWithOption", "Panicf");
+  ("util/log.log", "InitWithOption", "SetLogger");
+  ("util/log.log", "InitWithOption", "Warn");
+  ("util/log.log", "InitWithOption", "Warnf");
+  ("util/log.log", "Panic", "SetLogger");
+  ("util/log.log", "Panicf", "SetLogger");
+  ("util/log.log", "SetLogger", "SetLogger");
+  ("util/log.log", "SetLogger", "Warn");
+  ("util/log.log", "SetLogger", "Warnf");
+  ("util/log.zapLogger", "InitWithOption", "InitWithOption")
 ].
 
 (* listed findings (id leak.refresh-conn): functions that take a pooled
